@@ -89,6 +89,9 @@ fn get_reference_sequence_context(records: &[Record]) -> ReferenceSequenceContex
         record.alignment_end(),
     ) {
         (Some(id), Some(start), Some(end)) => ReferenceSequenceContext::some(id, start, end),
+        // A record with a reference sequence but no alignment start cannot be in a slice without
+        // a reference sequence: reference sequence IDs are not written for such a slice.
+        (Some(_), ..) => ReferenceSequenceContext::Many,
         _ => ReferenceSequenceContext::None,
     };
 
@@ -430,6 +433,30 @@ mod tests {
                 Map::<map::ReferenceSequence>::new(const { NonZero::new(13).unwrap() }),
             )
             .build()
+    }
+
+    #[test]
+    fn test_get_reference_sequence_context() {
+        // A record with a reference sequence ID but no alignment start.
+        let records = [
+            Record {
+                reference_sequence_id: Some(0),
+                ..Default::default()
+            },
+            Record::default(),
+        ];
+
+        assert_eq!(
+            get_reference_sequence_context(&records),
+            ReferenceSequenceContext::Many
+        );
+
+        let records = [Record::default(), Record::default()];
+
+        assert_eq!(
+            get_reference_sequence_context(&records),
+            ReferenceSequenceContext::None
+        );
     }
 
     #[test]
